@@ -735,12 +735,14 @@ class Opaque(Type):
         """
         from hugr.ext import ExtensionRegistry, Extension  # noqa: I001 # no circular import
 
+        # the arguments may contain opaque types themselves
+        args = [arg.resolve(registry) for arg in self.args]
         try:
             type_def = registry.get_extension(self.extension).get_type(self.id)
         except (ExtensionRegistry.ExtensionNotFound, Extension.TypeNotFound):
-            return self
+            return Opaque(self.id, self.bound, args, self.extension)
 
-        return ExtType(type_def, self.args)
+        return ExtType(type_def, args)
 
     def __str__(self) -> str:
         return _type_str(self.id, self.args)
